@@ -83,7 +83,7 @@ func c13CheckSummary(values []float64, conf float64) string {
 	// --- assume nothing ---
 	sum := AssumeNothing.Summary(s, conf)
 	med := refMedian(sorted)
-	if math.Abs(sum.Center-med) > 1e-9*math.Max(1, math.Abs(med)) {
+	if !(math.Abs(sum.Center-med) <= 1e-9*math.Max(1, math.Abs(med))) {
 		return fmt.Sprintf("AssumeNothing centre of %v = %v, median %v", values, sum.Center, med)
 	}
 	rank := func(v float64, first bool) int {
@@ -126,7 +126,7 @@ func c13CheckSummary(values []float64, conf float64) string {
 		}
 	}
 	if distinct && n <= 30 {
-		if cov := ref.BinomialCoverage(n, l, h); math.Abs(cov-sum.Confidence) > 1e-9 {
+		if cov := ref.BinomialCoverage(n, l, h); !(math.Abs(cov-sum.Confidence) <= 1e-9) {
 			return fmt.Sprintf("AssumeNothing(n=%d, %v): interval between order statistics %d and %d has exact binomial coverage %v, reported confidence %v", n, conf, l, h, cov, sum.Confidence)
 		}
 	}
@@ -174,7 +174,7 @@ func c13CheckSummary(values []float64, conf float64) string {
 	}
 	mean /= float64(n)
 	scale := math.Max(math.Abs(sorted[0]), math.Abs(sorted[n-1]))
-	if math.Abs(nm.Center-mean) > 1e-12*math.Max(1, scale)*float64(n) {
+	if !(math.Abs(nm.Center-mean) <= 1e-12*math.Max(1, scale)*float64(n)) {
 		return fmt.Sprintf("AssumeNormal centre of %v = %v, mean %v", values, nm.Center, mean)
 	}
 	if n >= 2 {
@@ -186,7 +186,7 @@ func c13CheckSummary(values []float64, conf float64) string {
 		tcrit := istats.InvCDF(istats.TDist{V: float64(n - 1)})((1 + conf) / 2)
 		half := tcrit * math.Sqrt(v/float64(n))
 		tol := 1e-6*half + 1e-9*math.Max(1, scale)
-		if math.Abs(nm.Lo-(mean-half)) > tol || math.Abs(nm.Hi-(mean+half)) > tol {
+		if !(math.Abs(nm.Lo-(mean-half)) <= tol) || !(math.Abs(nm.Hi-(mean+half)) <= tol) {
 			return fmt.Sprintf("AssumeNormal(%v, %v): interval [%v,%v], mean ± t·s/√n = [%v,%v]", values, conf, nm.Lo, nm.Hi, mean-half, mean+half)
 		}
 	}
@@ -327,7 +327,7 @@ func c13CheckCompareOne(ai int, x1, x2 []float64, exact bool) string {
 			return fmt.Sprintf("%s.Compare(%v,%v): p = %v", as.name, x1, x2, base.P)
 		}
 		sw := as.a.Compare(mk(x2, 0.05, 1, false), mk(x1, 0.05, 1, false))
-		if math.Abs(sw.P-base.P) > 1e-12 {
+		if !(math.Abs(sw.P-base.P) <= 1e-12) {
 			return fmt.Sprintf("%s.Compare(%v,%v): p = %v but %v with the samples swapped", as.name, x1, x2, base.P, sw.P)
 		}
 		for _, f := range []float64{2, 1024, 1e3} {
@@ -337,13 +337,13 @@ func c13CheckCompareOne(ai int, x1, x2 []float64, exact bool) string {
 				if as.name == "AssumeNormal" && f == 1e3 {
 					tol = 1e-9 // ×1000 is not exact in binary
 				}
-				if math.Abs(r.P-base.P) > tol {
+				if !(math.Abs(r.P-base.P) <= tol) {
 					return fmt.Sprintf("%s.Compare(%v,%v): p = %v, but %v after reordering and rescaling by %v", as.name, x1, x2, base.P, r.P, f)
 				}
 			}
 		}
 		if as.name == "AssumeNothing" && exact && untied {
-			if want := ref.ExactUTwoSided(x1, x2); math.Abs(base.P-want) > 1e-12 {
+			if want := ref.ExactUTwoSided(x1, x2); !(math.Abs(base.P-want) <= 1e-12) {
 				return fmt.Sprintf("AssumeNothing.Compare(%v,%v): p = %v, exact permutation p = %v", x1, x2, base.P, want)
 			}
 		}
